@@ -35,7 +35,8 @@ class TGraph:
         t = B.state_key(r["to"])
         lab = json.dumps([r["act"], _canon_args(r["args"])], separators=(",", ":"))
         lst = self.succ[f].setdefault(lab, [])
-        ent = (t, json.dumps(B.canon_obs(r["obs"]), sort_keys=True), r["cls"], json.dumps(r["exp"], sort_keys=True))
+        obs = B.canon_obs(r["obs"]) if "tips" in r["obs"] else {}
+        ent = (t, json.dumps(obs, sort_keys=True), r["cls"], json.dumps(r["exp"], sort_keys=True))
         if ent not in lst:
             lst.append(ent)
             self.ntrans += 1
@@ -66,7 +67,7 @@ def _run_variant(variant, fkey, lab, path, allowed, want_observed):
     act, args = json.loads(lab)
     ctx = B.Ctx(variant)
     out = {"variant": variant, "issues": [], "to": None, "unsupported": False, "drift": None, "not_run": False}
-    if variant in B.RT_ONLY_CLASSES and act not in B.RT_ACTS:
+    if (variant in B.RT_ONLY_CLASSES and act not in B.RT_ACTS) or (act in B.PLAIN_ONLY_ACTS and variant != "plain"):
         out["not_run"] = True
         return out
     try:
@@ -101,9 +102,11 @@ def _run_variant(variant, fkey, lab, path, allowed, want_observed):
             out["issues"].append(("receiver-modified", {"before": before, "after": after}))
         if res is None:
             return out
-        if res is recv and act not in B.IN_PLACE:
+        if res is recv and act not in B.IN_PLACE and act not in B.PLAIN_ONLY_ACTS:
             out["issues"].append(("returned-receiver", {}))
     _judge(ctx, act, res, fkey, allowed, out)
+    if act == "Query" and B.snapshot(ctx, recv) != before:
+        out["issues"].append(("receiver-modified", {"before": before, "after": B.snapshot(ctx, recv)}))
     if want_observed or out["issues"] or out["drift"]:
         out["observed"]["newick"] = res.get_newick(with_distances=True, with_node_names=True)
     else:
@@ -127,6 +130,21 @@ def _judge(ctx, act, res, fkey, allowed, out):
     rst = B.struct(ctx, res)
     rkey = B.state_key(rst)
     out["observed"] = {"obs": robs, "struct": rst}
+    if act == "Query":
+        t, eo, cls, exp = allowed[0]
+        want = B.canon_query(json.loads(exp))
+        got = B.query(ctx, res, want)
+        out["observed"] = {"query": got}
+        bad = sorted(k for k in want if B._j(want[k]) != B._j(got[k]))
+        for k in bad:
+            w, g = want[k], got[k]
+            if isinstance(w, dict) and isinstance(g, dict):
+                diff = {kk: {"expected": w[kk], "observed": g.get(kk)} for kk in w if B._j(w[kk]) != B._j(g.get(kk))}
+            else:
+                diff = {"expected": w, "observed": g}
+            out["issues"].append((k, {"differences": dict(list(diff.items())[:8]) if isinstance(diff, dict) and "expected" not in diff else diff}))
+        out["to"] = fkey
+        return
     if act == "Bifurcating":
         # contract carried by the spec record: same tips, same path lengths, every original split
         # still present (new zero-length edges may add splits), at most two children everywhere
